@@ -90,6 +90,10 @@ def native_replay(unit: str, ob, model: Optional[Dict[str, Any]] = None) -> Dict
 
     model = dict(model if model is not None else (ob.model or {}))
     fc = REG.fns[unit]
+    if fc.effect != "atomic":
+        # only functions declared atomic (no suspension, no callbacks into the runtime) are run
+        # natively: anything else would start tasks, servers or real I/O from inside the checker
+        raise CannotReplay("unit is not declared atomic: not run natively")
     mi, node = find_def(unit)
     local = unit.split(":")[1]
     names = [p.arg for p in node.args.posonlyargs + node.args.args] + [p.arg for p in node.args.kwonlyargs]
